@@ -2095,11 +2095,21 @@ fn setup_redirect_output_and_error_to(
     let abs_file_path: PathBuf = shell.absolute_path(Path::new(file_path));
 
     let mut file_options = std::fs::File::options();
-    file_options
-        .create(true)
-        .write(true)
-        .truncate(!append)
-        .append(append);
+    if !append
+        && shell
+            .options()
+            .disallow_overwriting_regular_files_via_output_redirection
+        && abs_file_path.is_file()
+    {
+        // noclobber: `&>file` refuses to overwrite an existing regular file, like `>file`.
+        file_options.create_new(true).write(true);
+    } else {
+        file_options
+            .create(true)
+            .write(true)
+            .truncate(!append)
+            .append(append);
+    }
 
     let stdout_file = shell
         .open_file(&file_options, &abs_file_path, params)
